@@ -1005,6 +1005,18 @@ def tag_accept_rules(F, R):
         nm = im["self"]
         R.ob("V2.tag-accept-set", nm + "::validate_unchecked", "raw-value", acc == discrs,
              "%s: raw values accepted %s = declared discriminants %s" % (nm, acc, discrs), where=b["span"])
+        # an undeclared value is reported as InvalidEnumTag at the start of the tag (offset 0 of the bytes given; the callers add their offsets)
+        errs = sorted(set(canon(body.expr_of_rvalue(s_["r"])) for bb_, i_, s_ in body.assigns()
+                          if s_["l"]["v"] == 0 and not s_["l"]["p"] and canon(body.expr_of_rvalue(s_["r"])).startswith("Err{")))
+        def _fold_pos(e):
+            m_ = re.fullmatch(r"(Err\{Error\{\w+\{\}, )(Sub|Add)\((\d+), (\d+)\)(\}\})", e)
+            if m_:
+                v_ = int(m_.group(3)) - int(m_.group(4)) if m_.group(2) == "Sub" else int(m_.group(3)) + int(m_.group(4))
+                return "%s%d%s" % (m_.group(1), v_, m_.group(5))
+            return e
+        errs = sorted(set(_fold_pos(e) for e in errs))
+        R.ob("E1.tag-pos", nm + "::validate_unchecked", "error", errs == ["Err{Error{InvalidEnumTag{}, 0}}"] or (nm.endswith("Bool") and errs == ["Err{Error{InvalidData{}, 0}}"]),
+             "%s: an undeclared tag value is InvalidEnumTag at offset 0 of the tag (found %s)" % (nm, errs), where=b["span"])
         # the raw value is loaded as an integer (never as the enum) before the check
         loads_enum = False
         for bb, t in body.calls():
